@@ -319,6 +319,51 @@ def check_random(nparams, shift, count, draws, precision=None):
     return []
 
 
+HETERO = [
+    # parameter lists whose members declare DIFFERENT keys (an integer parameter next to a real one, a coarse precision next
+    # to none, a parameter given by initial_value only): every parameter is drawn by its own declaration
+    [{"name": "turns", "bounds": [12, 60], "parameter_type": "integer"}, {"name": "fill_factor", "bounds": [0.25, 0.75]}],
+    [{"name": "a", "bounds": [0.0, 100.0], "precision": 5.0}, {"name": "b", "bounds": [0.25, 0.75]}, {"name": "c", "bounds": [10.3, 10.9]}],
+    [{"name": "a", "bounds": [0.25, 0.75]}, {"name": "n", "bounds": [3, 9], "parameter_type": "integer"}, {"name": "b", "bounds": [-0.75, -0.25]}],
+    [{"name": "a", "bounds": [1.0, 2.0], "precision": 0.5}, {"name": "n", "bounds": [100, 200], "parameter_type": "integer"}, {"name": "b", "bounds": [0.26, 0.74], "precision": 1e-2},
+     {"name": "c", "bounds": [0.251, 0.749]}],
+    [{"name": "iv", "initial_value": 4.0}, {"name": "b", "bounds": [0.25, 0.75]}, {"name": "iv2", "initial_value": -2.0, "precision": 0.5}],
+]
+
+
+def check_hetero(k, count, draws):
+    from artap.operators import RandomGenerator
+    import copy
+    sh = shim_mod.install()
+    ps = copy.deepcopy(HETERO[k])
+    g = RandomGenerator(ps)
+    g.init(count)
+    desc = "random generator on parameters %r count=%d draws=%r" % (HETERO[k], count, draws)
+    sh.reset(99, _Forced(draws))
+    try:
+        rows = g.generate()
+    except Exception as e:
+        return [("C12:random:hetero:exception:%s" % type(e).__name__, "%s raised %r" % (desc, e))]
+    finally:
+        sh.ctx = None
+    if len(rows) != count:
+        return [("C12:random:hetero:count", "%s: %d designs" % (desc, len(rows)))]
+    for r in rows:
+        if len(r) != len(ps):
+            return [("C12:random:hetero:row-length", "%s: row %r" % (desc, r))]
+        for v, p in zip(r, ps):
+            if "bounds" in p:
+                lb, ub = p["bounds"]
+            else:
+                lb, ub = sorted((p["initial_value"] * 0.5, p["initial_value"] * 1.5))
+            tol = max(1e-12 * max(1.0, abs(lb), abs(ub)), p.get("precision", 0.0) / 2.0)
+            if not (lb - tol <= v <= ub + tol):
+                return [("C12:random:hetero:out-of-bounds", "%s: parameter %r got %r" % (desc, p["name"], v))]
+            if p.get("parameter_type") == "integer" and v != int(v):
+                return [("C12:random:hetero:integer-parameter-not-integral", "%s: parameter %r got %r" % (desc, p["name"], v))]
+    return []
+
+
 def _shard(shard, col: Collector):
     kind = shard[0]
 
@@ -364,6 +409,10 @@ def _shard(shard, col: Collector):
             for nparams, shift in ((1, 0), (2, 3), (3, 5)):
                 rec("lhs_seeded", {"nparams": nparams, "shift": shift % len(BOXES), "N": N, "seed": seed * 4},
                     check_lhs_seeded(nparams, shift % len(BOXES), N, seed * 4))
+        for N in (300, 511, 512, 513, 514, 600, 1000, 1023, 1024, 1025, 1200, 2048, 2049, 4097):
+            for nparams, shift in ((1, 0), (2, 3), (4, 5)):
+                rec("lhs_seeded", {"nparams": nparams, "shift": shift % len(BOXES), "N": N, "seed": seed * 4},
+                    [(k, m[:300]) for k, m in check_lhs_seeded(nparams, shift % len(BOXES), N, seed * 4)])
         col.sample({"kind": "lhs-seeded", "nparams": 3, "N": 8, "seed": seed * 4}, 1)
     elif kind == "halton":
         nparams = shard[1]
@@ -372,8 +421,8 @@ def _shard(shard, col: Collector):
                 rec("halton", {"nparams": nparams, "shift": shift, "N": N}, check_halton(nparams, shift, N), True)
         # sample counts at and around powers of the prime bases (digit-count boundaries of the radical inverse)
         big = sorted({b ** e + d for b in (2, 3, 5, 7, 11, 13) for e in range(2, 11) for d in (-1, 0, 1) if 64 < b ** e + d <= shard[2]})
-        for N in big:
-            rec("halton", {"nparams": nparams, "shift": 0, "N": N}, check_halton(nparams, 0, N), True)
+        for N in sorted(set(big) | {100, 257, 300, 600, 1000, 1200, 2049, 4097}):
+            rec("halton", {"nparams": nparams, "shift": 0, "N": N}, [(k, m[:300]) for k, m in check_halton(nparams, 0, N)], True)
         col.sample({"kind": "halton", "nparams": nparams, "N": 64}, 1)
     elif kind == "grid":
         for nparams in (1, 2, 3):
@@ -403,10 +452,16 @@ def _shard(shard, col: Collector):
                         for prec in (None, 1e-1, 1e-3):
                             rec("random", {"nparams": nparams, "shift": shift, "count": count, "draws": draws, "precision": prec},
                                 check_random(nparams, shift, count, draws, prec), count >= 1)
+        for k in range(len(HETERO)):
+            for count in (1, 2, 4):
+                for draws in ([0.0], [ONE_MINUS], [0.5], [None], [0.0, ONE_MINUS], [ONE_MINUS, 0.0, 0.5], [0.3, 0.7, 0.1, 0.9]):
+                    rec("hetero", {"k": k, "count": count, "draws": draws}, check_hetero(k, count, draws), True)
         col.sample({"kind": "random", "nparams": 2, "count": 3, "draws": [0.0, ONE_MINUS]}, 1)
 
 
 def replay(sub, case):
+    if sub == "hetero":
+        return check_hetero(case["k"], case["count"], case["draws"])
     if sub == "lhs":
         uc = case["ucase"]
         uc = (uc[0], uc[1]) if uc[0] == "const" else (uc[0], uc[1], [tuple(c) for c in uc[2]])
